@@ -271,6 +271,20 @@ def _run_base(ctx):
                 ab = [p for p in bc.problems if p[0] == 'abort']
                 ctx.inst('R03.4', resolvers[ty], 'path %s (%s) strategy %r' % (path, ty, s), not ab,
                          'no aborting arm for this strategy' if not ab else ab[0][2], ab[0][1] if ab else rf)
+                # a strategy the container resolver has no arm of its own for is handed on to the generic resolver
+                own = {c.value for st in rf.body if isinstance(st, ast.If) for t, b_, n_ in if_chain(st)[0] for c in ast.walk(t) if isinstance(c, ast.Constant)}
+                rgen = repo.func(STR + ':resolve_strategy_generic')
+                hands_on = any(('func', STR + ':resolve_strategy_generic') in cg.resolve(c.func, rf) for c in calls_in(rf, nested=False))
+                if s not in own and hands_on and not ab:
+                    ev = Evaluator({'strategy': s})
+                    bc = BlockChecker(ev, set())
+                    for st in rgen.body:
+                        if isinstance(st, ast.If):
+                            bc.block([st], set())
+                    ab2 = [p_ for p_ in bc.problems if p_[0] == 'abort']
+                    ctx.inst('R03.4', STR + ':resolve_strategy_generic', 'path %s (%s) strategy %r, handed on by %s' % (path, ty, s, resolvers[ty].split(':')[1]), not ab2,
+                             'no aborting arm' if not ab2 else 'a conflict at %s (a %s, merged by the %s resolver) reaches an arm that raises: %s -- the merge aborts for valid notebooks '
+                             '(both sides convert one cell to different types)' % (path, ty, ty, ab2[0][2]), ab2[0][1] if ab2 else rgen, nontrivial=False)
                 if ty == 'string':
                     ev = Evaluator({'strategy': s})
                     bc = BlockChecker(ev, set())
